@@ -140,7 +140,7 @@ def hyp_job(job):
     tick_in = st.integers(0, 15)
     tick_late = st.integers(17, 40)
     tick_any = st.one_of(tick_in, tick_late)
-    errn = st.sampled_from(("ECONNREFUSED",))  # other errnos belong to C09's domain
+    errn = st.sampled_from(("ECONNREFUSED", "ECONNREFUSED", "ENETUNREACH", "EHOSTUNREACH"))
     cut = st.integers(1, 30)
 
     def action(transport):
